@@ -1,9 +1,8 @@
-SPECIFICATION FairSpec
+SPECIFICATION Spec
 CONSTANTS
   Configs <- ThoroughConfigs
   MaxW = 8
   Emit = FALSE
   FirstFrameFix = TRUE
 INVARIANTS ReaderExclusive MergeExclusive NoBadUnlock ReadInFileOrder EachFrameOnce Selected NoExtraFrame OrderedMerge UnorderedMerge MergedAll
-PROPERTY Termination
 VIEW View
